@@ -4,4 +4,6 @@ CONSTANTS
   Levels = {"Lua55", "LuaJIT"}
   CleanUpTo = 64
   MustErrorAbove = 200
+  EvK = 12
+  EvC = 16
 INVARIANTS Emit
